@@ -266,3 +266,12 @@ class Memory:
     def byte_values(self, name):
         r = self.regions[name]
         return [None if c is None else self._cell_val(c) for c in r.cells]
+
+
+def write_if_changed(path, text):
+    """Gen files keep their timestamp when the translation is unchanged, so make does not re-check them."""
+    import os
+    if os.path.exists(path) and open(path).read() == text:
+        return False
+    open(path, "w").write(text)
+    return True
